@@ -107,7 +107,7 @@ def name_obligations(sec, job, st, eng=None):
         if 'payload' in res and k >= base:
             # a stored element with the same name as an earlier one may have replaced it (groups/parameters) - the payload of
             # position k is the last input given under that name
-            exp = ins[k - base] if kind in (0, 1) else None
+            exp = ins[k - base]
             if exp is not None:
                 O.append(Obl(nm + '/wrong-element', neq(exp, res['payload']), 'by-name look-up returned another element\'s payload'))
             O.append(Obl(nm + '/name-vs-position', neq(res['payload'], res['payload.pos']), 'look-up by name and by the returned position give different data'))
